@@ -232,6 +232,14 @@ class Source:
             return (self._item_start(m.start()), m.start(), j, close)
         raise LostAnchor('type %s not found in %s' % (name, self.path))
 
+    def find_alias(self, name):
+        for m in find_code(self.src, self.mask, r'\btype\s+' + re.escape(name) + r'\b'):
+            if brace_depth_at(self.src, self.mask, m.start()) != 0:
+                continue
+            j = self.src.find(';', m.start())
+            return (self._item_start(m.start()), m.start(), j, j)
+        raise LostAnchor('type alias %s not found in %s' % (name, self.path))
+
     def find_const(self, name):
         for m in find_code(self.src, self.mask, r'\bconst\s+' + re.escape(name) + r'\b'):
             j = self.src.find(';', m.start())
@@ -629,7 +637,7 @@ def emit_type(srcobj, name, log, derive='Clone, Copy, PartialEq, Eq, Structural'
 
 
 def emit_fn(srcobj, name, impl=None, nth=0, contract='', loops=None, never_loop=None, to_string=None,
-            proofs=None, stub=False, wrap_impl=None, log=None, subst=None, resname='res'):
+            proofs=None, prologue=None, stub=False, wrap_impl=None, log=None, subst=None, resname='res'):
     log = log if log is not None else []
     (s, kw, o, c) = srcobj.find_fn(name, impl, nth)
     orig = srcobj.src[s:c + 1]
@@ -655,6 +663,9 @@ def emit_fn(srcobj, name, impl=None, nth=0, contract='', loops=None, never_loop=
         body = r3_loops(body, loops, log)
         body = insert_proofs(body, proofs, log)
         sig, body = r7_mut_self(sig, body, log)
+        if prologue and prologue.strip():
+            body = '{\n' + prologue.rstrip() + '\n' + body[1:]
+            log.append('proof prologue inserted at body start: ' + ' '.join(prologue.split())[:80])
         sig2 = r2_contract(sig, contract, log, resname)
         out = prefix + sig2 + body + '\n'
     if wrap_impl:
